@@ -371,17 +371,38 @@ def shard_small(ctx, shard_no, nshards, stride):
             ctx.case(inp['text'], True, 'small:' + name)
 
 
+def shard_vacuity(ctx, shard_no, nshards, stride):
+    """Properties whose event predicates are absent / {True} / {False} / {x > 0}, per position and on whole disjunctions."""
+    with ctx.timed('vacuity-table'):
+        for i, m in enumerate(gen.vacuity_table()):
+            if i % (stride * nshards) != (ctx.seed % stride) * nshards + shard_no:
+                continue
+            inp = {'text': mast.render(m)}
+            try:
+                p = sub_property(inp)
+            except Violation as v:
+                ctx.report(v)
+                p = True
+            if p is None:
+                ctx.count('vacuity-table:rejected-by-parser')
+                continue
+            ctx.case(inp['text'], True, 'vacuity-table')
+
+
 def run(ctx):
     with ctx.timed('table'):
         run_table(ctx)
     if ctx.tier == 'quick':
         core.run_sharded(ctx, __name__, 'shard', 1, (1500, 600))
         core.run_sharded(ctx, __name__, 'shard_small', 1, (40,))
+        core.run_sharded(ctx, __name__, 'shard_vacuity', 1, (8,))
     else:
         n = getattr(ctx, 'shards_override', None) or 16
         core.run_sharded(ctx, __name__, 'shard', n, (16000, 6000))
         core.run_sharded(ctx, __name__, 'shard_small', n, (1,))
+        core.run_sharded(ctx, __name__, 'shard_vacuity', n, (1,))
         ctx.exhaustive['small-grammar'] = True
+        ctx.exhaustive['vacuity-table'] = True
 
 
 def extra_evidence(ctx):
